@@ -332,6 +332,7 @@ pub fn property(_tier: Tier) -> Property {
                 strategy: Box::new(|_t: Tier| tag_string().prop_map(|s| StrCase { s }).boxed()),
                 check: Box::new(check_try_from),
             }),
+            crate::props::c20_events::part(),
         ],
         assumptions: vec![
             "the harness name tables (MPD tag/Names.cxx, Picard's MusicBrainz mapping, idle subsystem list) are the reference",
